@@ -159,6 +159,11 @@ def perform(op, v, ip, res):
         if op.get('none'):
             pos = (None,)
         kw = dict(regex=op['regex'], match_case=op['case'], count=op['count'])
+        if op.get('defaults'):
+            # leave out every keyword argument that has its documented default value
+            for key, dflt in (('regex', False), ('match_case', False), ('count', -1)):
+                if kw[key] == dflt and type(kw[key]) is type(dflt):
+                    del kw[key]
         if isA:
             return getattr(v, name)(op['pat'], *pos, **kw)
         return _mutate(v, ip, lambda o: getattr(o, name)(op['pat'], *pos, **kw))
@@ -177,9 +182,13 @@ def perform(op, v, ip, res):
         return AnsiString(str(v)) if not isA else AnsiStr(str.__str__(v))
 
     if k == 'slice':
+        if op.get('step1'):
+            return v[op['a']:op['b']:1]      # an explicit step of 1 is a step-1 slice
         return v[op['a']:op['b']]
     if k == 'index':
         return v[op['i']]
+    if k == 'clip' and op.get('pos'):
+        return _method(v, 'clip', ip, op['a'], op['b'])      # positional form
     if k == 'clip':
         kw = {}
         if op.get('a') is not None or op.get('kwa'):
@@ -271,6 +280,8 @@ def perform(op, v, ip, res):
             args.append(op['max'])
         return getattr(v, op['how'])(*args)
     if k == 'splitlines':
+        if 'keep' in op and op.get('kw'):
+            return v.splitlines(keepends=op['keep'])
         return v.splitlines(op['keep']) if 'keep' in op else v.splitlines()
     if k == 'partition':
         return getattr(v, op['how'])(op['sep'])
@@ -284,6 +295,8 @@ def perform(op, v, ip, res):
             args.append(op['count'])
         return _method(v, 'replace', ip, *args)
     if k == 'expandtabs':
+        if 'tab' in op and op.get('kw'):
+            return _method(v, 'expandtabs', ip, tabsize=op['tab'])
         if 'tab' in op:
             return _method(v, 'expandtabs', ip, op['tab'])
         return _method(v, 'expandtabs', ip)
